@@ -6,6 +6,9 @@ V = os.path.dirname(os.path.dirname(os.path.abspath(__file__)))
 # id -> (technique, level text, level note, design ref)
 PROOF_NOTE = "Lean 4.33 kernel; axioms propext/Quot.sound/Classical.choice only (audited per run); translator go/extract and the layout interpreter Model/Layout.lean validated against the real IEncode/IDecode by the correspondence run; Go runtime/stdlib modelled (DESIGN.md 2.6)."
 CLAIMED = {
+ "C05": ("Lean 4: generic theorem that a per-scalar prefix code round-trips whole texts and refuses any text containing a scalar outside its repertoire; instances proved for ASCII, UTF-16BE with surrogate pairs (arithmetic lemma) and GSM 7-bit (regenerated tables); coding selection / decoder pairing by `decide` over 0..255; Windows-1252 and GB18030 (golang.org/x/text) covered by exhaustive per-scalar execution, not by the kernel (partial)",
+         "Proof for ASCII, UCS-2/UTF-16 and GSM 7-bit on all texts; the selection tables are hand-written Lean tables tied to NewCMPPCodec/NewSMPPCodec/Decode*Content by complete enumeration of 0..255 on every run. For Latin-1 (Windows-1252) and GB18030 the per-scalar hypothesis of the generic theorem is established by executing the real transformers on every Unicode scalar alone and in context (thorough tier: all 1,112,064; quick: 13k+), with the GB18030 private-use carve-out; packed GSM 7-bit relies on the C08 packing model with the two end-of-message ambiguities carved out exactly.",
+         PROOF_NOTE + " golang.org/x/text transformers are exercised, not modelled.", "DESIGN.md 4/C05"),
  "C19": ("Lean 4 theorems over integer nanoseconds: the relative string denotes exactly the duration truncated to seconds (or is empty iff that is zero), negative / unparsable / unrepresentable requests are refused, the absolute string denotes exactly now+duration through a calendar model whose left inverse is proved by loop invariants for every day number; float arithmetic of Duration.Hours() and time.Format tied by correspondence at every unit boundary",
          "Unbounded proof on the integer model for all durations and all instants (no enumeration of days: the civil-date search is shown to return a date whose day number is the input). Partial in what it trusts: float64 conversions in Duration.Hours()/Minutes()/Seconds() and time.Format are compared with the model on every unit boundary +-1 ns/+-1 s, sub-second parts and random instants of 2000..2099; that the printed month/day are in calendar range is checked on sampled days of every year.",
          PROOF_NOTE + " time.ParseDuration, float truncation and time.Format outside the proof.", "DESIGN.md 4/C19"),
